@@ -266,7 +266,7 @@ theorem K3b_windows_main (tr : Link.Trace) (b : Link.Br) (s : Link.Svc) (types :
     (rest : List (Int × Op)) (s' : Sched2.S2) (outs : List Send)
     (hidle : IdleOps pre0) (hnew0 : Untouched a pre0) (hpre : Active pre) (hnew : Untouched a pre)
     (hact : Active evsA) (hun : Untouched a evsA)
-    (hlate : tb + d + 14000 ≤ t + 750 * ttl) (httl : 1125 ≤ ttl) (htb : tb ≤ t + 750 * ttl)
+    (hlate : tb + d + 14000 ≤ t + 750 * ttl) (httl : 1125 ≤ ttl) (htb : tb + 120 + 14000 + 10000 ≤ t + 750 * ttl)
     (hbeyond : t + 850 * ttl + 20000 < tn)
     (hex : Sched2.exec2 (browserCfg types 10000 none) {} tS
       (pre0 ++ (tb, .start d) :: (pre ++ (t, .ptr a n ttl t) :: (evsA ++ (tn, opn) :: rest))) = .ok (s', outs))
